@@ -10,6 +10,8 @@ HNext == \/ \E p \in Paths, c \in Contents : AddTmpl(p, c) /\ hist' = Append(his
          \/ \E p \in Paths : RemoveTmpl(p) /\ hist' = Append(hist, <<"remove_tmpl", p>>)
          \/ SubBegin /\ hist' = Append(hist, <<"sub_begin">>)
          \/ ImportGroup /\ hist' = Append(hist, <<"sub_end_import">>)
+         \/ Observe /\ hist' = Append(hist, <<"emit">>)
+         \/ \E p \in Paths : SetInline(p) /\ hist' = Append(hist, <<"set_inline", p>>)
 HSpec == HInit /\ [][HNext]_hvars
 
 Final == [p \in DOMAIN tmpls |-> tmpls[p]]
